@@ -332,6 +332,10 @@ impl Model {
                 }
                 // existing duplicates make the creation fail
                 let rows = self.visible_rows(tx, ti);
+                // and so does a NULL in an indexed column (index keys cannot be NULL in this engine)
+                if rows.iter().any(|(_, v)| idx.iter().any(|c| v[*c].is_null())) {
+                    return Expect::Fail("null key");
+                }
                 let mut keys: Vec<Vec<&Val>> = rows
                     .iter()
                     .map(|(_, v)| idx.iter().map(|c| &v[*c]).collect::<Vec<_>>())
@@ -433,6 +437,11 @@ impl Model {
                         if c.not_null && v.is_null() {
                             return Expect::Fail("not null");
                         }
+                    }
+                    // index keys cannot be NULL in this engine: a row with a NULL in a PRIMARY KEY / UNIQUE
+                    // column is refused (since fix for F1: before anything is stored)
+                    if self.tables[ti].uniques.iter().any(|u| self.sees(tx, u.creator) && u.cols.iter().any(|c| r[*c].is_null())) {
+                        return Expect::Fail("not null");
                     }
                     if self.unique_violation(tx, ti, r, None, &accepted) {
                         return Expect::Fail("unique");
